@@ -36,6 +36,7 @@ def handled_state : List (String × StateArg) := [
     experiments is C10) -/
 def handled_args_fields : List String := [
   "fai_file_name", "gunzipped_reference", "junc_bed_file", "output_exists", "reference",
+  "gzi_file_name",     -- (/repo 8f3abaa) set next to fai_file_name in DatasetProcessor.__init__, before any pool exists
   "require_monoexonic_polya", "require_monointronic_polya", "requires_polya_for_construction",
   "use_technical_replicas",
   -- assigned by `process_sample` of a run restarted with --read_assignments only (repair of audit 2-C GAP 1-4): the
